@@ -51,13 +51,16 @@ func (bucket *Bucket) UUID() (string, error) {
 func (bucket *Bucket) Close(_ context.Context) {
 	traceEnter("Bucket.Close", "%s", bucket)
 
-	unregisterBucket(bucket)
-
 	verifLock(bucket.mutex, "close.mid")
 	bucket.mutex.Lock()
-	defer bucket.mutex.Unlock()
-
+	alreadyClosed := bucket.closed
 	bucket.closed = true
+	bucket.mutex.Unlock()
+
+	if alreadyClosed {
+		return // closing a handle twice must not release the bucket's reference count twice
+	}
+	unregisterBucket(bucket)
 }
 
 // _closeSqliteDB closes the underlying sqlite database and shuts down dcpFeeds. Must have a lock to call this function.
